@@ -154,7 +154,16 @@ def c16_group(seed, idx, algo, directed=None):
                 base.tags["c16-exactness-lost-in-deep-cells"] += 1
         if is_exact:
             ok = same_points(mapped, v.trace["points"]) and same_points([ml], [v.trace["last"]])
-        else:
+            if not ok and len(mapped) == len(v.trace["points"]):
+                # the image run computes its own midpoints: deep in the tree its cells can need one more mantissa bit than the
+                # base run's (larger magnitude after the map).  A first difference of a few ulps, after many rounds of exact
+                # agreement, is that; the comparison of this pair continues with the tolerance
+                k0 = first_diff_idx(mapped, v.trace["points"])
+                if k0 is not None and 10 <= k0 < len(mapped) and len(mapped[k0]) == len(v.trace["points"][k0]) and \
+                        all(abs(x - y) <= 4 * math.ulp(max(abs(x), abs(y))) for x, y in zip(mapped[k0], v.trace["points"][k0])):
+                    base.tags["c16-exactness-lost-in-deep-cells"] += 1
+                    is_exact = False
+        if not is_exact:
             # inexact map: compare to 1e-9 relative to the size of the image box in each dimension
             scale = [max(abs(lo), abs(hi), abs(hi - lo)) for lo, hi in nb]
 
